@@ -1,7 +1,9 @@
 CONSTANTS
   Schemes = @SCHEMES@
   JwtKeySets = @KEYSETS@
-  JwtTimes = @TIMES@
+  JwtExps = @EXPS@
+  JwtNbfs = @NBFS@
+  JwtIats = @IATS@
   JwtHdrs = @HDRS@
   MaxRules = @MAXRULES@
 INIT Init
